@@ -156,6 +156,56 @@ BASE_GRAPHS = {
 }
 
 
+def extra_documents():
+    J = "JSIGHT 0.3\n\n"
+    B = 'TYPE @B\n{\n  "b": 1,\n  @key: 2\n}\n\n'
+    D = 'TYPE @D\n{ // {allOf: "@B"}\n  "d": 1\n}\n\n'
+    E = 'TYPE @E\n{ // {allOf: "@D"}\n  "e": 1\n}\n\n'
+    K = 'TYPE @key\n  "abc"\n\n'
+    R = 'GET /x\n  200\n    { // {allOf: "@D"}\n      "r": 1\n    }\n\n'
+    out = []
+    for perm in itertools.permutations([B, D, E, K, R]):
+        out.append(("shortcut-key-chain", (J + "".join(perm)).encode()))
+    A0 = 'TYPE @a\n{\n  "a": 1\n}\n\n'
+    for body in ('[[\n  { // {allOf: "@a"}\n    "z": 1\n  }\n]]', '[[[\n  { // {allOf: "@a"}\n    "y": 2\n  }\n]]]',
+                 '{\n  "rows": [[\n    { // {allOf: "@a"}\n      "z": 1\n    }\n  ]]\n}'):
+        ind = "\n".join("    " + l for l in body.split("\n"))
+        out.append(("nested-arrays", (J + A0 + "GET /x\n  200\n" + ind + "\n").encode()))
+        out.append(("nested-arrays", (J + "TYPE @g\n" + "\n".join("  " + l for l in body.split("\n")) + "\n\n" + A0 + "GET /x\n  200 @g\n").encode()))
+        out.append(("nested-arrays", (J + A0 + "URL /r\n  Protocol json-rpc-2.0\n  Method m\n    Params\n" + "\n".join("      " + l for l in body.split("\n")) + "\n").encode()))
+    return out
+
+
+def nested_array_statement(j):
+    """every object with an allOf rule, wherever it stands (also below arrays of arrays), has at least the children of its bases"""
+    bad = []
+    ut = j.get("userTypes", {})
+
+    def walk(c, where):
+        if not isinstance(c, dict):
+            return
+        if c.get("tokenType") == "object":
+            for r in c.get("rules", []) or []:
+                if r.get("key") == "allOf":
+                    names = [x.get("scalarValue") for x in r.get("children", [])] if r.get("tokenType") == "array" else [r.get("scalarValue")]
+                    have = [ch.get("key") for ch in c.get("children", [])]
+                    for b in names:
+                        for ch in (((ut.get(b) or {}).get("schema") or {}).get("content") or {}).get("children", []):
+                            if ch.get("key") not in have:
+                                bad.append("%s: the property %r of the base %s is missing" % (where, ch.get("key"), b))
+        for ch in c.get("children", []) or []:
+            walk(ch, where + "/" + (ch.get("key") or "[]"))
+
+    for n, t in ut.items():
+        walk((t.get("schema") or {}).get("content"), n)
+    for key, it in j.get("interactions", {}).items():
+        for nm in ("query", "params", "result"):
+            walk(((it.get(nm) or {}).get("schema") or {}).get("content"), key + " " + nm)
+        for r in it.get("responses", []) or []:
+            walk((((r.get("body") or {}).get("schema")) or {}).get("content"), key + " " + str(r.get("code")))
+    return bad
+
+
 def document_cases(tier, seed):
     rng = random.Random(seed)
     cases = []
@@ -438,6 +488,22 @@ def run(res, tier, seed, replay):
                     known_hits[c].append((len(doc), doc, ir, sval))
             else:
                 spec_bad.append((ctx, why, ir))
+    # documents outside the generator's tree language: property keys that are user-type shortcuts, arrays directly inside
+    # arrays; decided by the JSON-only statement (inherited before own, in rule order, marked, each exactly once)
+    xdocs = extra_documents()
+    xo = C.run_sharded("harness", "fn", [P.run_line("out=json", [("a.jst", d)]) for _, d in xdocs])
+    res.count(len(xdocs))
+    for (label, d), o in zip(xdocs, xo):
+        st, dd = P.parse(o)
+        if st != "ok":
+            spec_bad.append((([], [], "extra:" + label, d.decode()), "a valid document is rejected: %s" % C.unhx(dd.get("msg", "-")).decode("latin1")[:160], ""))
+            continue
+        jx = json.loads(C.unhx(dd["json"]))
+        res.nontrivial(("extra", label))
+        comp = G.json_statement(jx) + nested_array_statement(jx)
+        if comp:
+            spec_bad.append((([], [], "extra:" + label, d.decode()), comp[0], ""))
+    tagdist["extra"] = len(xdocs)
     res.notes["input_distribution"] = {"documents": len(cases), "impl/spec verdicts": dist, "families": tagdist}
     if cases:
         mid = len(cases) // 2
